@@ -44,20 +44,6 @@ theorem fail_unchanged (st : SliceSt) (op : OutOp) (h : ∀ a b, (st.step op).2 
     simp only [SliceSt.step] at *
     split <;> simp_all
 
-theorem write_ok (s t : SliceOut) (bs : Bytes) (h : s.write bs = .ok t) :
-    bs.length ≤ s.buf.length - s.pos ∧ t = ⟨splice s.buf s.pos bs, s.pos + bs.length⟩ := by
-  unfold SliceOut.write SliceOut.remaining at h
-  split at h
-  · simp at h
-  · simp at h; exact ⟨by omega, h.symm⟩
-
-theorem reserve_ok (s t : SliceOut) (k : Nat) (r : Res) (h : s.reserve k = .ok (t, r)) :
-    k ≤ s.buf.length - s.pos ∧ t = ⟨s.buf, s.pos + k⟩ ∧ r = ⟨s.pos, s.pos + k⟩ := by
-  unfold SliceOut.reserve SliceOut.remaining at h
-  split at h
-  · simp at h
-  · simp at h; exact ⟨by omega, h.1.symm, h.2.symm⟩
-
 /-- frame of an append: a successful write changes exactly `buf[pos, pos+len)`; every other byte,
     below and above, is untouched, and the new bytes are the ones written. -/
 theorem write_frame (s s' : SliceOut) (bs : Bytes) (hp : s.pos ≤ s.buf.length) (h : s.write bs = .ok s') :
@@ -136,25 +122,6 @@ theorem length_constant (st : SliceSt) (op : OutOp) (hp : st.tgt.pos ≤ st.tgt.
       obtain ⟨t, r'⟩ := p
       obtain ⟨_, _, h3, _, h5, _⟩ := reserved_write_frame _ _ _ _ _ hw
       exact ⟨h5, by simp [h3, hp]⟩
-
-theorem pairwise_set {α} (R : α → α → Prop) (l : List α) (i : Nat) (x y : α) (hl : l[i]? = some x)
-    (hp : l.Pairwise R) (h1 : ∀ z, R z x → R z y) (h2 : ∀ z, R x z → R y z) : (l.set i y).Pairwise R := by
-  induction l generalizing i with
-  | nil => simp
-  | cons a l ih =>
-    cases i with
-    | zero =>
-      simp at hl; subst hl
-      simp only [List.set_cons_zero, List.pairwise_cons] at hp ⊢
-      exact ⟨fun z hz => h2 z (hp.1 z hz), hp.2⟩
-    | succ i =>
-      simp only [List.getElem?_cons_succ] at hl
-      simp only [List.set_cons_succ, List.pairwise_cons] at hp ⊢
-      refine ⟨?_, ih i hl hp.2⟩
-      intro z hz
-      rcases List.mem_or_eq_of_mem_set hz with hz | rfl
-      · exact hp.1 z hz
-      · exact h1 a (hp.1 x (List.mem_of_getElem? hl))
 
 /-- one step of an honest history preserves the invariant. -/
 theorem step_inv (init : Bytes) (st : SliceSt) (op : OutOp) (ho : honest op) (hi : Inv init st) :
@@ -385,7 +352,6 @@ end Slicec.C12
 #print axioms Slicec.C12.length_constant
 #print axioms Slicec.C12.write_frame
 #print axioms Slicec.C12.reserved_write_frame
-#print axioms Slicec.C12.pairwise_set
 #print axioms Slicec.C12.step_inv
 #print axioms Slicec.C12.run_inv
 #print axioms Slicec.C12.step_refines
